@@ -10,7 +10,7 @@ DRIVER = "C12"
 TIMEOUT = 1500
 
 RULE = ("savefiles of generated applications (C12's family: preset selectors with dependent defaults, toggles that "
-        "allocate a pointer sub-tree, enabled-by on embedded sub-trees (also by a port inside the sub-tree, and tables switched as a whole by one of their own ports: rSelf(.., rEnabledBy(x))), rDepends lists, up to 3 levels, enumerated "
+        "allocate a pointer sub-tree, enabled-by on embedded sub-trees (also by a port inside the sub-tree, and tables switched as a whole by one of their own ports: rSelf(.., rEnabledBy(x)) - one level down and, for every 4th application, on the ROOT table handed to load_from_file), rDepends lists, up to 3 levels, enumerated "
         "sub-trees) in states reached by 3..12 random parameter messages; the message lines are permuted: ALL "
         "permutations up to 6 lines (quick: always up to 4 lines, for every 4th file up to 6), random permutations "
         "beyond; plus sub-files from which depended-on lines (selectors, switches together with their sub-tree) are "
@@ -42,6 +42,9 @@ def gen(rng, tier, dist):
         opts = {"p_soft": 0.6 if rng.random() < 0.5 else 0.0, "p_sel": 0.8, "p_ptr": 0.7,
                 "p_rdep": 0.7, "p_nodef": 0.03, "p_inner": 0.6 if inner else 0.0, "p_arr": 0.7 if inner else 0.4,
                 "p_self": 0.8 if rng.random() < 0.3 else 0.0}
+        # the ROOT table switched as a whole by one of its own toggles (rSelf(.., rEnabledBy(on)) on the table
+        # handed to load_from_file): every line of the file waits for the line of /on
+        opts["p_self0"] = 0.9 if c % 4 == 1 else 0.0
         app = sc.static_app() if static else sc.gen_app(rng, opts)
         ref = sc.Ref(app)
         if not ref.flat:
@@ -52,7 +55,9 @@ def gen(rng, tier, dist):
         nops = rng.choice([3, 4, 5, 6, 8, 12])
         # files with a dependency among their lines: every third application, and all those with a switch inside
         # the directory it governs (rSelf / "name/toggle")
-        ops, mops = sc.gen_ops(rng, ref, nops, focus=(c % 3 == 0 or opts["p_self"] > 0 or opts["p_inner"] > 0))
+        ops, mops = sc.gen_ops(rng, ref, nops, focus=(c % 3 == 0 or opts["p_self"] > 0 or opts["p_inner"] > 0 or opts["p_self0"] > 0))
+        if app.levels[0].self_enabled_by is not None:
+            dist["root table with rSelf(.., rEnabledBy)"] = dist.get("root table with rSelf(.., rEnabledBy)", 0) + 1
         st = [list(v) if ref.exists(i) else None for i, v in enumerate(ref.st)]
         want = sc.expected_lines_of_state(ref, st)
         paths = sorted((k[:-2] if k.endswith("~[") else k) for k in want)
